@@ -110,24 +110,15 @@ Proof.
   - destruct Hin.
 Qed.
 
-(* ------------------------------------------------------------------ stochastic dynamics: when posted events are inert *)
-Section Stoch.
-Variable Qp : nat -> Prop.
-(* only programs of class Qp are ever posted: by the set-up actions and by every program in every state *)
-Hypothesis Hsetup : forall p, In p (t_procs tb) -> Forall (posts_ok Qp) (p_setup p).
-Hypothesis Hprogs : forall k t e lc w, Forall (posts_ok Qp) (snd (prog_of tb k t e lc w)).
-(* they change neither the loci nor the user state *)
-Hypothesis Hinert : forall k, Qp k -> forall t e lc w,
-  fst (prog_of tb k t e lc w) = w /\ fold_left (act_loci e) (snd (prog_of tb k t e lc w)) lc = lc.
-(* an appended entry passes its own membership test in the state it is generated from *)
-Hypothesis Hsound : forall pi lc w d, In d (d_dyn D pi lc w) -> de_member d lc w = true.
-
+(* ------------------------------------------------------------------ stochastic dynamics: unconditional since repair F15 *)
+(* the Gillespie loop tests `len(l) > 0` after the posted events of the interval ran; for an appended
+   entry that is its membership test on the current state *)
 Theorem dstoch_run_member pf fuel rs ls ds k t c e m :
   In (OHandler k t c e (Some m)) (r_out (dstoch_run D pf fuel rs ls ds)) -> m = true.
 Proof.
   intros H. rewrite dstoch_run_out in H. apply in_rev in H.
-  destruct (dstoch_run_dsteps D Qp Hprogs Hsetup Hinert (fun _ => True) (fun _ => True)
-              (fun _ _ _ => I) (fun _ _ _ _ _ _ _ => I) Hsound pf fuel rs ls ds I) as [cs Hs].
+  destruct (dstoch_run_dsteps D (fun _ => True) (fun _ => True)
+              (fun _ _ _ => I) (fun _ _ _ _ _ _ _ => I) pf fuel rs ls ds I) as [cs Hs].
   pose proof (DSteps_member D _ _ _ _ Hs (setup_member D rs ls ds)) as F.
   rewrite Forall_forall in F. exact (member_rec_true _ _ _ _ _ (F _ H)).
 Qed.
@@ -139,7 +130,7 @@ Theorem dstoch_run_dsteps_pos pf fuel rs ls ds :
   exists cs, DSteps D (Xpos) (setup_state tb rs ls ds) cs (r_final (dstoch_run D pf fuel rs ls ds)).
 Proof.
   intros Hnn Hr.
-  apply (dstoch_run_dsteps D Qp Hprogs Hsetup Hinert (Forall unit_rand) Xpos); [| |exact Hsound | exact Hr].
+  apply (dstoch_run_dsteps D (Forall unit_rand) Xpos); [| |exact Hr].
   - intros n l. apply Forall_skipn.
   - intros s x dt s3 Hrs Ha E. exact (proj2 (dstoch_select_pos D s x dt s3 (Hnn _ _) Hrs Ha E)).
 Qed.
@@ -154,7 +145,6 @@ Proof.
   destruct (DSteps_tap_call Xpos _ _ _ t pi j e Hs (setup_ev_taps rs ls ds) H) as (s1 & c & _ & Hok & Hc).
   exact (call_fired_ok c s1 t pi j e Hok Hc).
 Qed.
-End Stoch.
 
 (* synchronous dynamics, unconditional: zero-probability and absent entries never fire *)
 Theorem dsync_run_fired pf fuel rs ds t pi j e :
